@@ -48,6 +48,10 @@ type Prop struct {
 	Outside        []string
 	// Extra runs checks that do not go through the SSA engine (returns extra coverage info)
 	Extra func(rc *RunCtx) error
+	// EngineOnly lists harnesses whose environment is stubbed inside the engine (stub network, stubbed TLS
+	// handshake, engine-scheduled goroutines): their counterexamples cannot be forced on the native build and
+	// are reported after deterministic re-execution in the engine only.
+	EngineOnly map[string]bool
 	// UnwindIsFinding: an UNWIND outcome is a termination counterexample candidate (replayed under a wall-clock limit)
 	UnwindIsFinding bool
 }
@@ -405,8 +409,18 @@ func (rc *RunCtx) processFindings() {
 			rc.inconclusive("cannot write replay: %v", err)
 			continue
 		}
-		confirmed, detail := rc.confirm(set, f, path)
+		engineOnly := rc.Prop.EngineOnly[f.Harness]
+		confirmed, detail := false, ""
+		if !engineOnly {
+			confirmed, detail = rc.confirm(set, f, path)
+		}
 		what := fmt.Sprintf("%s %s at %s tags=%v input=%s", f.Kind, f.ID, shortSite(f.Site), sortedTagList(f.Tags), RenderVector(f.Replay))
+		if !confirmed && (engineOnly || f.Sched) && f.Kind != "unwind" {
+			// schedule / stub dependent: the path is deterministic in the engine (decision list recorded); native replay cannot force it
+			what += " (schedule/stub dependent: reproduced by deterministic re-execution in the engine only)"
+			confirmed = true
+			rc.Validated--
+		}
 		if !confirmed {
 			rc.inconclusive("ENGINE-MISMATCH: %s did not reproduce natively (%s) replay=%s", what, detail, path)
 			continue
